@@ -571,7 +571,61 @@ func checkC20Returns(c C20Case) (o Outcome) {
 
 // drawC20 builds a small investment journal: cash and broker accounts, a few priced commodities, and a
 // timeline of months each of which holds price changes only, deposits only, purchases, transfers or a mix.
+// drawC20Many: a portfolio of realistic breadth - 33 to 60 securities bought in one or a few transactions (more
+// than eight commodities flowing in one transaction), then deposits and withdrawals in V at constant prices and
+// a price move later.
+func drawC20Many(t *rapid.T) C20Case {
+	v := rapid.SampledFrom([]string{"CHF", "USD"}).Draw(t, "v")
+	n := rapid.IntRange(33, 60).Draw(t, "nSecurities")
+	day := ref.FromCivil(rapid.IntRange(2015, 2022).Draw(t, "year"), rapid.IntRange(1, 12).Draw(t, "month"), rapid.SampledFrom([]int{1, 2, 15, 28}).Draw(t, "dom"))
+	day0 := day
+	var ds []ref.Directive
+	for _, a := range []string{"Assets:Bank", "Assets:Broker", "Equity:Equity", "Expenses:Fees"} {
+		ds = append(ds, ref.Directive{Kind: ref.KOpen, Date: day, Account: a})
+	}
+	coms := make([]string, n)
+	for i := range coms {
+		coms[i] = fmt.Sprintf("H%02d", i)
+		ds = append(ds, ref.Directive{Kind: ref.KPrice, Date: day, Com: coms[i], Target: v, Price: fmt.Sprint(rapid.IntRange(1, 300).Draw(t, "price"))})
+	}
+	perTrx := rapid.SampledFrom([]int{n, n, 9, 12, 40}).Draw(t, "perTrx")
+	for i := 0; i < n; i += perTrx {
+		var bs []ref.Booking
+		for j := i; j < n && j < i+perTrx; j++ {
+			bs = append(bs, ref.Booking{Credit: "Equity:Equity", Debit: "Assets:Broker", Qty: fmt.Sprint(rapid.IntRange(1, 50).Draw(t, "units")), Com: coms[j]})
+		}
+		ds = append(ds, ref.Directive{Kind: ref.KTrx, Date: day, Desc: fmt.Sprintf("funding %d", i), Bookings: bs})
+	}
+	steps := rapid.IntRange(2, 6).Draw(t, "steps")
+	for i := 0; i < steps; i++ {
+		day += ref.Day(rapid.SampledFrom([]int{1, 7, 30, 31, 45}).Draw(t, "gap"))
+		switch rapid.SampledFrom([]string{"deposit", "deposit", "withdraw", "fee", "price"}).Draw(t, "kind") {
+		case "deposit":
+			ds = append(ds, ref.Directive{Kind: ref.KTrx, Date: day, Desc: "deposit", Bookings: []ref.Booking{{Credit: "Equity:Equity", Debit: "Assets:Bank", Qty: fmt.Sprint(rapid.IntRange(1, 5000).Draw(t, "amt")), Com: v}}})
+		case "withdraw":
+			ds = append(ds, ref.Directive{Kind: ref.KTrx, Date: day, Desc: "withdrawal", Bookings: []ref.Booking{{Credit: "Assets:Bank", Debit: "Equity:Equity", Qty: fmt.Sprint(rapid.IntRange(1, 500).Draw(t, "amt")), Com: v}}})
+		case "fee":
+			ds = append(ds, ref.Directive{Kind: ref.KTrx, Date: day, Desc: "fee", Bookings: []ref.Booking{{Credit: "Assets:Bank", Debit: "Expenses:Fees", Qty: fmt.Sprint(rapid.IntRange(1, 50).Draw(t, "amt")), Com: v}}})
+		case "price":
+			k := rapid.IntRange(0, n-1).Draw(t, "which")
+			ds = append(ds, ref.Directive{Kind: ref.KPrice, Date: day, Com: coms[k], Target: v, Price: fmt.Sprint(rapid.IntRange(1, 300).Draw(t, "price2"))})
+		}
+	}
+	c := C20Case{Directives: ds, Text: ref.RenderAll(ds), V: v}
+	c.Interval = rapid.SampledFrom([]int{0, 3, 3, 4}).Draw(t, "interval")
+	to := day + ref.Day(rapid.IntRange(0, 40).Draw(t, "toOff"))
+	c.To = &to
+	if rapid.IntRange(0, 3).Draw(t, "from") == 0 {
+		d := day0 + ref.Day(rapid.IntRange(0, int(day-day0)).Draw(t, "fromOff"))
+		c.From = &d
+	}
+	return c
+}
+
 func drawC20(t *rapid.T) C20Case {
+	if gen.Rare(t, "manyHoldings", 4) {
+		return drawC20Many(t)
+	}
 	v := rapid.SampledFrom([]string{"CHF", "USD"}).Draw(t, "v")
 	others := rapid.SliceOfNDistinct(rapid.SampledFrom([]string{"AAPL", "BTC", "EUR", "Gold", "X1"}), 1, 3, func(s string) string { return s }).Draw(t, "coms")
 	sort.Strings(others)
